@@ -417,4 +417,230 @@ example : (runC .code 1 n!"#define M a \\\n b \\\n c\n").2.2 = 4 := by decide +k
 example : (matchLine (LState.init (lineMarker 41 n!"/$R/inc.hpp" ++ n!"x") n!"f")).map (fun m => (m.len, m.line, m.col, m.file)) =
     some (22, 41, 0, n!"/$R/inc.hpp") := by decide +kernel
 
+/-! ## the tokenizer's own position tracking: line and column behind white space, strings, comments and words -/
+
+
+/-- the position behind a piece of text: a newline starts a line at column 0, every other character is one column -/
+def advance (p : Nat × Nat) (text : List B) : Nat × Nat :=
+  text.foldl (fun q c => if c = 10 then (q.1 + 1, 0) else (q.1, q.2 + 1)) p
+
+theorem advance_cons (p : Nat × Nat) (c : B) (t : List B) :
+    advance p (c :: t) = advance (if c = 10 then (p.1 + 1, 0) else (p.1, p.2 + 1)) t := rfl
+
+theorem advance_append (p : Nat × Nat) (a b : List B) : advance p (a ++ b) = advance (advance p a) b := by
+  simp [advance, List.foldl_append]
+
+/-! ### white space -/
+
+theorem scanWs_tracks (ws : List B) : ∀ (rest : List B) (n l k : Nat), (∀ c ∈ ws, isWs c = true) →
+    (∀ c r', rest = c :: r' → isWs c = false) →
+    scanWs (ws ++ rest) n l k = (n + ws.length, (advance (l, k) ws).1, (advance (l, k) ws).2) := by
+  induction ws with
+  | nil =>
+    intro rest n l k _ hr
+    cases rest with
+    | nil => simp [scanWs, advance]
+    | cons c r' => simp [scanWs, hr c r' rfl, advance]
+  | cons c cs ih =>
+    intro rest n l k hws hr
+    have hc := hws c (by simp)
+    rw [List.cons_append, scanWs]
+    simp only [hc, if_true]
+    by_cases h10 : c = 10
+    · subst h10
+      simp only [beq_self_eq_true, if_true]
+      rw [ih rest (n + 1) (l + 1) 0 (fun x hx => hws x (by simp [hx])) hr, advance_cons]
+      simp; omega
+    · have : (c == 10) = false := by simpa using h10
+      simp only [this, Bool.false_eq_true, if_false]
+      rw [ih rest (n + 1) l (k + 1) (fun x hx => hws x (by simp [hx])) hr, advance_cons]
+      simp [h10]; omega
+
+/-! ### strings -/
+
+/-- the inside of a string literal delimited by `q`: any characters, the delimiter only doubled -/
+inductive StrBody (q : B) : List B → Prop where
+  | nil : StrBody q []
+  | char {c : B} {t : List B} : c ≠ q → StrBody q t → StrBody q (c :: t)
+  | doubled {t : List B} : StrBody q t → StrBody q (q :: q :: t)
+
+/-- **a string literal moves the position by exactly its characters** — newlines inside it start lines, a
+doubled delimiter is two columns -/
+theorem scanStr_tracks (q : B) (hq : q ≠ 10) (body : List B) (hb : StrBody q body) : ∀ (rest : List B) (n l k : Nat),
+    (∀ r', rest ≠ q :: r') →
+    scanStr q false (body ++ q :: rest) n l k =
+      (n + body.length + 1, (advance (l, k) (body ++ [q])).1, (advance (l, k) (body ++ [q])).2) := by
+  induction hb with
+  | nil =>
+    intro rest n l k hr
+    simp only [List.nil_append, scanStr, beq_self_eq_true, if_true]
+    cases rest with
+    | nil => simp [scanStr, advance, hq]
+    | cons c r' =>
+      have : (c == q) = false := by
+        cases h : c == q with
+        | false => rfl
+        | true => simp at h; subst h; exact absurd rfl (hr r')
+      simp [scanStr, this, advance, hq]
+  | @char c t hc hb ih =>
+    intro rest n l k hr
+    have hcq : (c == q) = false := by simpa using hc
+    rw [List.cons_append, scanStr]
+    simp only [hcq, Bool.false_eq_true, if_false]
+    by_cases h10 : c = 10
+    · subst h10
+      simp only [beq_self_eq_true, if_true]
+      rw [ih rest (n + 1) (l + 1) 0 hr, List.cons_append, advance_cons]
+      simp; omega
+    · have : (c == 10) = false := by simpa using h10
+      simp only [this, Bool.false_eq_true, if_false]
+      rw [ih rest (n + 1) l (k + 1) hr, List.cons_append, advance_cons]
+      simp [h10]; omega
+  | @doubled t hb ih =>
+    intro rest n l k hr
+    rw [List.cons_append, List.cons_append, scanStr]
+    simp only [beq_self_eq_true, if_true]
+    rw [scanStr]
+    simp only [beq_self_eq_true, if_true]
+    rw [ih rest (n + 2) l (k + 2) hr, List.cons_append, List.cons_append, advance_cons, advance_cons]
+    simp [hq]; omega
+
+/-! ### block comments -/
+
+/-- no `*/` inside -/
+def noClose : List B → Prop
+  | [] => True
+  | [_] => True
+  | c :: c' :: cs => ¬ (c = 42 ∧ c' = 47) ∧ noClose (c' :: cs)
+
+theorem scanBlock_tracks (body : List B) : ∀ (rest : List B) (n l k : Nat), noClose (body ++ [42]) →
+    scanBlock (body ++ 42 :: 47 :: rest) n l k =
+      (n + body.length + 2, (advance (l, k) (body ++ [42, 47])).1, (advance (l, k) (body ++ [42, 47])).2) := by
+  induction body with
+  | nil =>
+    intro rest n l k _
+    simp [scanBlock, advance]
+  | cons c cs ih =>
+    intro rest n l k hnc
+    -- the next character exists: cs ++ [42, 47, …] is not empty
+    obtain ⟨c', tl, htl⟩ : ∃ c' tl, cs ++ 42 :: 47 :: rest = c' :: tl := by
+      cases cs with
+      | nil => exact ⟨42, 47 :: rest, rfl⟩
+      | cons d ds => exact ⟨d, ds ++ 42 :: 47 :: rest, rfl⟩
+    have hnot : ¬ (c = 42 ∧ c' = 47) := by
+      cases cs with
+      | nil =>
+        simp only [List.nil_append, List.cons.injEq] at htl
+        intro h; rw [← htl.1] at h; exact absurd h.2 (by decide)
+      | cons d ds =>
+        simp only [List.cons_append, List.cons.injEq] at htl
+        have := hnc
+        simp only [List.cons_append, noClose] at this
+        rw [← htl.1]; exact this.1
+    have hrest : noClose (cs ++ [42]) := by
+      cases cs with
+      | nil => simp [noClose]
+      | cons d ds =>
+        have := hnc
+        simp only [List.cons_append, noClose] at this
+        exact this.2
+    rw [List.cons_append, htl, scanBlock]
+    have hcond : (c == 42 && c' == 47) = false := by
+      cases h1 : c == 42 <;> cases h2 : c' == 47 <;> simp_all
+    simp only [hcond, Bool.false_eq_true, if_false]
+    rw [← htl]
+    by_cases h10 : c = 10
+    · subst h10
+      simp only [beq_self_eq_true, if_true]
+      rw [ih rest (n + 1) (l + 1) 0 hrest, List.cons_append, advance_cons]
+      simp; omega
+    · have : (c == 10) = false := by simpa using h10
+      simp only [this, Bool.false_eq_true, if_false]
+      rw [ih rest (n + 1) l (k + 1) hrest, List.cons_append, advance_cons]
+      simp [h10]; omega
+
+/-! ### the tokenizer's position is the position of the characters it has read -/
+
+theorem advance_plain (p : Nat × Nat) (t : List B) (h : ∀ c ∈ t, c ≠ 10) : advance p t = (p.1, p.2 + t.length) := by
+  induction t generalizing p with
+  | nil => rfl
+  | cons c cs ih =>
+    rw [advance_cons, if_neg (h c (by simp)), ih _ (fun x hx => h x (by simp [hx]))]
+    simp; omega
+
+/-- **White space, string literals and block comments — the tokens that can run over line ends — move the
+tokenizer's line and column by exactly the characters they consist of**; identifiers move the column by their length.
+With `C14_marker_read_back` for `#line` markers this is the tokenizer's half of "the reported position is the
+position in the text the tokenizer was given". -/
+theorem C14_tokenizer_tracks (st : LState) (rest : List B) :
+    (∀ ws, ws ≠ [] → (∀ c ∈ ws, isWs c = true) → (∀ c r', rest = c :: r' → isWs c = false) → st.rest = ws ++ rest →
+      matchKind st .whitespace = some (Match.mk (ws.length) ((advance (st.line, st.col) ws)).1 ((advance (st.line, st.col) ws)).2 st.file)) ∧
+    (∀ body, StrBody 34 body → (∀ r', rest ≠ 34 :: r') → st.rest = 34 :: (body ++ 34 :: rest) →
+      matchKind st .stringDouble = some (Match.mk (body.length + 2) ((advance (st.line, st.col) (34 :: (body ++ [34])))).1 ((advance (st.line, st.col) (34 :: (body ++ [34])))).2 st.file)) ∧
+    (∀ body, StrBody 39 body → (∀ r', rest ≠ 39 :: r') → st.rest = 39 :: (body ++ 39 :: rest) →
+      matchKind st .stringSingle = some (Match.mk (body.length + 2) ((advance (st.line, st.col) (39 :: (body ++ [39])))).1 ((advance (st.line, st.col) (39 :: (body ++ [39])))).2 st.file)) ∧
+    (∀ body, noClose (body ++ [42]) → st.rest = 47 :: 42 :: (body ++ 42 :: 47 :: rest) →
+      matchKind st .commentBlock = some (Match.mk (body.length + 4) ((advance (st.line, st.col) (47 :: 42 :: (body ++ [42, 47])))).1 ((advance (st.line, st.col) (47 :: 42 :: (body ++ [42, 47])))).2 st.file)) := by
+  refine ⟨?_, ?_, ?_, ?_⟩
+  · intro ws hne hws hr hst
+    unfold matchKind
+    rw [hst, scanWs_tracks ws rest 0 st.line st.col hws hr]
+    have : ws.length ≠ 0 := by intro h; exact hne (List.length_eq_zero_iff.mp h)
+    simp [this]
+  · intro body hb hr hst
+    unfold matchKind
+    rw [hst]
+    simp only [List.drop_succ_cons, List.drop_zero]
+    rw [scanStr_tracks 34 (by decide) body hb rest 1 st.line (st.col + 1) hr, advance_cons]
+    simp; omega
+  · intro body hb hr hst
+    unfold matchKind
+    rw [hst]
+    simp only [List.drop_succ_cons, List.drop_zero]
+    rw [scanStr_tracks 39 (by decide) body hb rest 1 st.line (st.col + 1) hr, advance_cons]
+    simp; omega
+  · intro body hnc hst
+    unfold matchKind
+    rw [hst]
+    simp only []
+    rw [scanBlock_tracks body rest 2 st.line (st.col + 2) hnc, advance_cons, advance_cons]
+    simp; omega
+
+/-- an identifier holds no newline: it moves the column by its length -/
+theorem C14_ident_tracks (st : LState) (m : Match) (h : matchKind st .ident = some m) :
+    (m.line, m.col) = advance (st.line, st.col) (st.rest.take m.len) := by
+  unfold matchKind at h
+  simp only [] at h
+  split at h
+  · cases h
+  · simp only [Option.some.injEq] at h
+    subst h
+    simp only []
+    rw [advance_plain]
+    · have : (st.rest.take (lenWhile isIdentChar st.rest)).length = lenWhile isIdentChar st.rest := by
+        have hle : ∀ (l : List B), lenWhile isIdentChar l ≤ l.length := by
+          intro l; induction l with
+          | nil => simp [lenWhile]
+          | cons a t ih => simp only [lenWhile]; split <;> simp <;> omega
+        simp [List.length_take, Nat.min_eq_left (hle _)]
+      rw [this]
+    · have hall : ∀ (l : List B) c, c ∈ l.take (lenWhile isIdentChar l) → isIdentChar c = true := by
+        intro l
+        induction l with
+        | nil => intro c hc; simp [lenWhile] at hc
+        | cons a t ih =>
+          intro c hc
+          simp only [lenWhile] at hc
+          split at hc
+          · next ha =>
+            simp only [List.take_succ_cons, List.mem_cons] at hc
+            cases hc with
+            | inl e => rw [e]; exact ha
+            | inr e => exact ih c e
+          · simp at hc
+      intro c hc hc10
+      have := hall st.rest c hc
+      subst hc10
+      simp [isIdentChar, isAlpha, isDigit, isLowerAlpha, isUpperAlpha] at this
+
 end Sqf.Props.C14
